@@ -231,7 +231,9 @@ DEFAULT_TB = [
 
 def match_known(known, prop, f):
     for k in known:
-        if k.get('property') != prop or k.get('status') == 'fixed':
+        if k.get('status') == 'fixed':
+            continue
+        if k.get('property') != prop and prop not in k.get('also', []):
             continue
         sig = k.get('signature')
         if sig and sig == f.get('signature'):
